@@ -46,6 +46,13 @@ func init() {
 		Gen:  genC04Map,
 		New:  func() any { return &MapCase{} },
 		Exec: execC04Map,
+		Enum: func(tier string, batch, nbatch int) []any {
+			if batch != 0 {
+				return nil
+			}
+			// one enumerated case: every pair of quartets on different taxa (ids 0..44) whose hash codes collide
+			return []any{&MapCase{QuartetScan: 45}}
+		},
 		Real: []string{"Edge.HashCode / HashEquals / SameBipartition", "tree.EdgeIndex", "hashmap.HashMap (Value, PutValue, rehash, KeyValues)", "Quartet.HashCode / HashEquals / Compare",
 			"Tree.ReinitIndexes", "Tree.Reroot / RerootOutGroup"},
 		Simulated: []string{"the insertion / lookup history", "initial capacity and load factor", "which presentation of a split is used as key"},
@@ -82,6 +89,9 @@ type MapCase struct {
 	LF     float64   `json:"lf"`
 	Steps  []MapStep `json:"steps"`
 	Q      [2][4]int `json:"q"`
+	// QuartetScan > 0: instead of the above, scan all 4-subsets of taxon ids 0..QuartetScan-1 for pairs whose HashCode collides and
+	// require HashEquals to tell them apart (different taxa are different keys of a quartet index, collision or not)
+	QuartetScan int `json:"quartetscan,omitempty"`
 }
 
 func genC04Map(rt *rapid.T, tier string) any {
@@ -148,8 +158,52 @@ type poolEdge struct {
 	desc string
 }
 
+func quartetScan(o *Outcome, n int) {
+	byHash := map[uint64][][4]uint{}
+	for a := 0; a < n; a++ {
+		for b := a + 1; b < n; b++ {
+			for c := b + 1; c < n; c++ {
+				for d := c + 1; d < n; d++ {
+					q := &tree.Quartet{T1: uint(a), T2: uint(b), T3: uint(c), T4: uint(d)}
+					h := q.HashCode()
+					byHash[h] = append(byHash[h], [4]uint{uint(a), uint(b), uint(c), uint(d)})
+					o.Steps++
+				}
+			}
+		}
+	}
+	for _, sets := range byHash {
+		if len(sets) < 2 {
+			continue
+		}
+		o.Probe("quartet-hash-collision-between-different-taxa")
+		o.Nontrivial = true
+		for i := range sets {
+			for j := range sets {
+				if i == j {
+					continue
+				}
+				// three topologies of one set against the first presentation of the other
+				for _, p := range [][4]int{{0, 1, 2, 3}, {0, 2, 1, 3}, {0, 3, 1, 2}} {
+					x := &tree.Quartet{T1: sets[i][p[0]], T2: sets[i][p[1]], T3: sets[i][p[2]], T4: sets[i][p[3]]}
+					y := &tree.Quartet{T1: sets[j][0], T2: sets[j][1], T3: sets[j][2], T4: sets[j][3]}
+					if x.HashEquals(hashmap.Hasher(y)) || x.Compare(y) != tree.QUARTET_DIFF {
+						o.Fail("quartet:different-taxa-equal", "quartets %v and %v are on different taxa (their hash codes collide: %d) but compare equal for the index (Compare = %d)", *x, *y, x.HashCode(), x.Compare(y))
+						return
+					}
+				}
+			}
+		}
+	}
+}
+
 func execC04Map(t *testing.T, cc any, o *Outcome) {
 	c := cc.(*MapCase)
+	if c.QuartetScan > 0 {
+		guard(o, "quartet-scan", func() { quartetScan(o, c.QuartetScan) })
+		o.Key = "quartet-scan"
+		return
+	}
 	ok := guard(o, "c04map", func() {
 		var pool []poolEdge
 		var all []string
